@@ -8,6 +8,9 @@ BASE_NOTE = "Trusted base: Go 1.26.8 toolchain (testing/synctest for the virtual
 
 # property -> (technique, level text, design ref, extra note)
 CLAIMED = {
+ "C08": ("exhaustive grid for the freshness predicate + model-based notification-stream search in a synctest bubble (datagram and stream transports)",
+         "The RFC 7641 3.4 predicate is compared on a grid of sequence-number pairs around 0 / 2^23 / 2^24-1 x time differences around 128 s; the end-to-end half drives real client connections with generated registration answers, notification streams (virtual inter-arrival times up to 200 s) and Cancel at every position, with a per-observation model of the last delivered notification as oracle.",
+         "DESIGN.md 3/C08", ""),
  "C07": ("metamorphic search over segmentations in a synctest bubble: same frame sequence, generated cuts, handler/signal log must not depend on the cuts; oversize headers without body",
          "Generated frame sequences x segmentations x connection cache sizes (12k quick / 300k thorough) against tcp.Client on an in-memory stream; quiescence detection makes 'closed as soon as the header is seen, without any body byte' a decidable statement.",
          "DESIGN.md 3/C07", ""),
